@@ -611,9 +611,20 @@ func (g *generator) genTx() *Step {
 		}
 		st.SignKey = st.From
 	case "gov_param":
-		st.From = c.OwnerKey
-		st.SignKey = st.From
 		st.ParamKey, st.ParamVal = g.genParam()
+		st.From = c.OwnerKey
+		// the owner the access-control list names for this key; sometimes the owner of OTHER keys
+		if v != nil {
+			if o := s.aclOwner(v, st.ParamKey); o != "" {
+				if i := s.keyIndexOf(o); i >= 0 {
+					st.From = i
+				}
+			}
+		}
+		if c.SplitACL && r.Chance(0.2) {
+			st.From = []int{c.OwnerKey, 1}[r.Intn(2)]
+		}
+		st.SignKey = st.From
 	case "gov_dao":
 		st.From = c.OwnerKey
 		st.SignKey = st.From
@@ -659,6 +670,9 @@ func (g *generator) genTx() *Step {
 		}
 		if len(feats) == 0 {
 			feats = append(feats, fmt.Sprintf("%s:%d", "NCUST", codec.UpgradeFeatureMap["NCUST"]))
+		}
+		if r.Chance(0.1) {
+			feats = []string{} // an upgrade message that names no feature leaves the schedule as it is
 		}
 		st.Upgrade = &UpgradeSpec{Height: 1, Version: "FEATURE", Features: feats}
 	}
